@@ -268,7 +268,7 @@ def _trim_arity(func, max_limit=3):
     # user's parse action 'func', so that we don't incur call penalty at parse time
 
     # fmt: off
-    LINE_DIFF = 9
+    LINE_DIFF = 15
     # IF ANY CODE CHANGES, EVEN JUST COMMENTS OR BLANK LINES, BETWEEN THE NEXT LINE AND
     # THE CALL TO FUNC INSIDE WRAPPER, LINE_DIFF MUST BE MODIFIED!!!!
     _trim_arity_call_line = _trim_arity_call_line or traceback.extract_stack(limit=2)[-1]
@@ -277,7 +277,13 @@ def _trim_arity(func, max_limit=3):
     def wrapper(*args):
         nonlocal found_arity, limit
         if found_arity:
-            return func(*args[limit:])
+            try:
+                return func(*args[limit:])
+            except IndexError as ie:
+                # wrap IndexErrors inside a _ParseActionIndexError
+                raise _ParseActionIndexError(
+                    "IndexError raised in parse action", ie
+                ).with_traceback(None)
         while 1:
             try:
                 ret = func(*args[limit:])
